@@ -33,6 +33,15 @@ func History(g *G, nprog, steps int) []Program {
 				g.Emit(M{"op": "SetMode", "z": z, "m": g.Mode()})
 			case k < 70:
 				g.Emit(M{"op": "SetInf", "z": z, "neg": g.Bool()})
+			case k < 73: // integers whose digit count is a multiple of the word size, large leading digits, exponent on the word boundary
+				d := g.PickS("9", "8", "7", "1") + g.Digits(g.Pick(19, 38, 57)-1)
+				if g.Bool() {
+					d = rep("9", g.Pick(19, 38, 57))
+				}
+				g.Emit(M{"op": "SetInt", "z": z, "i": g.PickS("", "-") + d})
+				// read-only conversions of a value whose exponent sits exactly on a word boundary
+				g.Emit(M{"op": g.PickS("Rat", "Float64", "Float32", "Int", "Int64"), "x": z, "into": ""})
+				g.Emit(M{"op": "BitsExp", "x": z})
 			case k < 76:
 				g.Emit(M{"op": "SetInt64", "z": z, "i": itoa(g.R.Int63n(2000) - 1000)})
 			case k < 80:
@@ -51,6 +60,8 @@ func History(g *G, nprog, steps int) []Program {
 				g.Emit(M{"op": "SetFloat64", "z": z, "bits": strconv.FormatUint(g.f64bits(), 10)})
 			case k < 96:
 				g.Emit(M{"op": "New", "z": z})
+			case k < 97:
+				g.Emit(M{"op": g.PickS("Rat", "Int", "Float64", "Int64", "Text"), "x": x, "into": "", "fmt": "g", "prec": -1})
 			case k < 98:
 				g.Emit(M{"op": "Cmp", "x": x, "y": y})
 			default:
